@@ -2,7 +2,7 @@
 # MANIFEST.setup_cmd: offline build of the Coq development (full .vo build).
 set -e
 cd "$(dirname "$0")"
-export PYTHONPATH=/repo/src:$(pwd) PYTHONDONTWRITEBYTECODE=1
+export PYTHONPATH=${XSM_REPO:-/repo}/src:$(pwd) PYTHONDONTWRITEBYTECODE=1
 /venv/bin/python - <<'PY'
 from harness import core
 b = core.coq_build()
